@@ -955,6 +955,7 @@ package server
 //@ assigns *
 //@ may_emit *
 //@ ensures[C11] restored_fields: err == nil ==> s.name == ms.Name && s.pauseController == ms.PauseController && s.rolloutController == ms.RolloutController && s.options == ms.Options && s.targetOptions == ms.TargetOptions
+//@ ensures[C11] restored_service_can_serve: err == nil ==> s.active != nil && lbReady(s.active)
 //@ ensures[C11] active_targets_presumed_healthy: err == nil ==> s.active != nil && fresh(s.active) && lbReady(s.active) && len(s.active.all) == len(ms.ActiveTargets)
 //@ ensures[C10,C11] rollout_slot_only_with_rollout_targets: err == nil ==> (len(ms.RolloutTargets) == 0 ==> s.rollout == nil) && (len(ms.RolloutTargets) > 0 ==> s.rollout != nil && lbReady(s.rollout) && len(s.rollout.all) == len(ms.RolloutTargets))
 //@ ensures[C11,C16] reinitialised: err == nil ==> (!isnil(s.certManager)) == s.options.TLSEnabled && !isnil(s.middleware)
@@ -1230,3 +1231,23 @@ package server
 //@ assigns nothing
 //@ ensures[C04,C05,C11] empty_table: result != nil && fresh(result) && result.services != nil && result.requestServiceMap != nil && repInv(result) && forall n string :: !haskey(result.services, n)
 //@ emits NewServiceMap(result)
+//@ func (*server.Router).RestoreLastSavedState
+//@ attr inline = (*server.Router).RestoreLastSavedState$1
+//@ requires r.services != nil
+//@ attr blocks
+//@ assigns Router.services, ServiceMap.requestServiceMap, mapsof(ServiceMap.services), Service.options
+//@ may_emit FsOpen, FileClose, FileClosed, JsonDecode, NewServiceMap, SetService, RebuildTable, JsonUnmarshal
+//@ ensures[C11,C12] unreadable_or_corrupt_state_changes_nothing: result != nil ==> none(NewServiceMap) && none(SetService) && none(Lock(r, lockid("server.Router.serviceLock")))
+//@ ensures[C11] a_missing_file_is_not_an_error: none(JsonDecode) && none(FileClose) ==> none(NewServiceMap) && none(SetService)
+//@ ensures[C11] every_saved_service_is_installed_into_a_fresh_table: result == nil && emitted(JsonDecode(_)) ==> count(NewServiceMap(_)) == 1 && first(NewServiceMap(_), SetService(_, _)) && first(Lock(r, lockid("server.Router.serviceLock")), NewServiceMap(_))
+//@ ensures[C11] reads_the_configured_state_file: all(FsOpen, $0 == r.statePath) && count(FsOpen(_)) == 1
+//@ ensures[C18] lock_free: !held(r.serviceLock)
+
+//@ func (*server.Router).RestoreLastSavedState$1
+//@ assigns Router.services, ServiceMap.requestServiceMap, mapsof(ServiceMap.services), Service.options
+//@ may_emit NewServiceMap, SetService, RebuildTable
+//@ loop 1 invariant same_list: coll == services && idx <= len(coll)
+//@ loop 1 invariant fresh_table: r.services != nil && fresh(r.services)
+//@ loop 1 invariant table_consistent: repInv(r.services)
+//@ loop 1 invariant services_ready: forall n string :: haskey(r.services.services, n) ==> r.services.services[n].active != nil && r.services.services[n].pauseController != nil && !isnil(r.services.services[n].middleware)
+//@ loop 1 invariant decoded_services_ready: forall i int :: 0 <= i && i < len(coll) ==> coll[i] != nil && coll[i].active != nil && coll[i].pauseController != nil && !isnil(coll[i].middleware)
